@@ -1,4 +1,5 @@
 import OdcGeo.Model.C05Opts
+import OdcGeo.Model.C05Meta
 /-!
 Driver operations for `Model/C05Opts.lean`.  Tokens: keyword dicts `{k=v,k=v}` (values are opaque tokens without `,` `=` `{` `}`),
 predictor `U` (Unset) | `N` | `T` | `F` | `i:<n>`, optional strings `N` | `s:<text>`.
@@ -75,6 +76,34 @@ def run (args : List String) : Option String :=
     let (a, b) := tileCompressorParts c p
     pure s!"{fmtBool a} {fmtBool b}"
   | ["gdalcomp", c] => pure ((gdalComp c).getD "N")
+  | ["fixed", v, p, pad] => do
+    let v ← parseRat? v; let p ← parseNat? p; let pad ← parseNat? pad
+    pure ("|" ++ fmtFixed v p pad ++ "|")
+  | ["rendermd", bands, p, pad, eol] => do
+    -- bands: `k:v;k:v` per band joined by `+`; eol: `N` (empty) | `NL` (newline) | text
+    let bands ← (if bands = "E" then some [] else (bands.splitOn "+").mapM fun b =>
+      (b.splitOn ";").mapM fun kv => match kv.splitOn ":" with
+        | [k, v] => (parseRat? v).map fun v => (k, v)
+        | _ => none)
+    let p ← parseNat? p; let pad ← parseNat? pad
+    let eol := if eol = "N" then "" else if eol = "NL" then "\n" else eol
+    pure (((renderGdalMetadata bands p pad eol).replace "\n" "\\n").replace " " "_")
+  | ["unwrap", stats, ndim] => do
+    let stats ← (stats.splitOn ";").mapM fun kv => match kv.splitOn ":" with
+      | [k, vs] => (parseList? parseRat? vs).map fun vs => (k, vs)
+      | _ => none
+    let ndim ← parseNat? ndim
+    pure (match unwrapStats stats ndim with
+      | none => "ERR:IndexError"
+      | some bs => "+".intercalate (bs.map fun b => ";".intercalate (b.map fun (k, v) => s!"{k}:{fmtRat v}")))
+  | ["coggbox", y, x, tile, nl] => do
+    let y ← parseNat? y; let x ← parseNat? x; let nl ← parseOpt? parseNat? nl
+    let tile ← (if tile = "N" then some TileArg.none else match (tile.splitOn "x").mapM parseNat? with
+      | some [n] => some (.int n)
+      | some [a, b] => some (.pair a b)
+      | _ => none)
+    let r := cogGboxShape ⟨y, x⟩ tile nl
+    pure s!"{r.y} {r.x}"
   | _ => none
 
 end OdcGeo.C05.OptsDrv
